@@ -464,8 +464,13 @@ def established_case(ctx, scenario_idx, lose_at, partial, case):
                 elif (scenario_idx + idx) % 4 == 2:
                     c_ = Counter('cancelled-proxy%d' % idx)
                     obj.notifyOnDisconnect(c_)
-                    obj.notifyOnDisconnect(rec['cb'])
-                    obj.cancelNotifyOnDisconnect(c_)
+                    if scenario_idx % 2:
+                        # the only callback is cancelled first (the proxy has none for a while), another registered later
+                        obj.cancelNotifyOnDisconnect(c_)
+                        obj.notifyOnDisconnect(rec['cb'])
+                    else:
+                        obj.notifyOnDisconnect(rec['cb'])
+                        obj.cancelNotifyOnDisconnect(c_)
                     cancelled.append(('proxy', c_))
                     l_ = Listener()
                     obj.notifyOnDisconnect(l_.on_lost)
@@ -522,8 +527,12 @@ def established_case(ctx, scenario_idx, lose_at, partial, case):
                     c_ = Counter('cancelled-dc%d' % a['idx'])
                     conn.notifyOnDisconnect(c_)
                     extra = Counter('after-cancelled-dc%d' % a['idx'])
-                    conn.notifyOnDisconnect(extra)
-                    conn.cancelNotifyOnDisconnect(c_)
+                    if scenario_idx % 8 == 5 and not dcs.get(0) is None:
+                        conn.cancelNotifyOnDisconnect(c_)
+                        conn.notifyOnDisconnect(extra)
+                    else:
+                        conn.notifyOnDisconnect(extra)
+                        conn.cancelNotifyOnDisconnect(c_)
                     cancelled.append(('connection', c_))
                     dcs['x%d' % a['idx']] = extra
                     # a listener object's METHOD registered and cancelled (each attribute access makes a new, equal,
@@ -602,6 +611,15 @@ def established_case(ctx, scenario_idx, lose_at, partial, case):
                        w, case)
             return len(steps)
         # snapshot what is outstanding
+        bystander = None
+        if scenario_idx % 3 == 1:
+            # another connection of the same process with work of its own: the loss of the first one is none of its business
+            bystander = clientfix.Peer().ready()
+            by_cb = Counter('bystander-dc')
+            bystander.proto.notifyOnDisconnect(by_cb)
+            by_call = clientfix.Outcome(bystander.proto.callRemote('/obj', 'Other', interface='org.verif.I',
+                                                                   destination='org.verif.P'))
+            bystander.take()
         outstanding_calls = [i for i, c in calls.items() if c['o'].fired == 0]
         done_before = {i: c['o'].fired for i, c in calls.items()}
         live_proxies = [i for i, p in proxies.items() if p['obj'] is not None]
@@ -611,6 +629,24 @@ def established_case(ctx, scenario_idx, lose_at, partial, case):
             clock.advance(100000)
         except Exception as e:
             ctx.report('timer-callback-raised', 'a timer raised %r after the connection was lost' % e, w, case)
+        if bystander is not None:
+            if by_cb.calls or by_call.fired:
+                ctx.report('bystander-connection-affected', 'the loss of one connection ran a disconnect callback (%d times) or '
+                           'completed a call (%d times) of ANOTHER connection of the process' % (len(by_cb.calls), by_call.fired),
+                           w, case)
+            else:
+                by_loss = Failure(ConnectionLost('bystander loss'))
+                bystander.lose(by_loss)
+                if len(by_cb.calls) != 1 or by_call.fired != 1:
+                    ctx.report('bystander-connection-affected', 'after another connection had been lost, this one\'s own loss '
+                               'ran its callback %d times and completed its call %d times' % (len(by_cb.calls), by_call.fired),
+                               w, case)
+                else:
+                    ctx.count('bystander_connections_ok')
+            try:
+                clock.advance(100000)
+            except Exception as e:
+                ctx.report('timer-callback-raised', 'a timer of the bystander connection raised %r' % e, w, case)
         w['outstanding_calls'] = outstanding_calls
         w['live_proxies'] = live_proxies
         w['pending_proxies'] = pending_proxies
